@@ -641,7 +641,7 @@ func c31ConcCount(r *kit.Run, st *c31ConcStats) {
 // c31Concurrent is the concurrent part of TestC31.
 func c31Concurrent(r *kit.Run) {
 	rng := r.Rand("concurrent")
-	n := r.N(30, 600)
+	n := r.N(30, 400)
 	plans := make([]c31ConcPlan, n)
 	for i := range plans {
 		plans[i] = genC31Conc(rng, r.N(120, 200))
